@@ -71,6 +71,7 @@ type world struct {
 	allKicked atomic.Bool  // `kickall` was issued: instances created later are released at once
 	panics    []string     // "api: message" of recovered panics of daemon calls
 	ranRun    bool
+	obs       bool // `obs on`: every answer of a sequential case is followed by the observable state
 }
 
 // api is the surface of the daemon the scripts drive: an OrderedDaemon instance, or the package-level wrappers around the
@@ -645,6 +646,8 @@ func (w *world) exec(r *rec, op string) string {
 			w.log("timeout")
 			ans = "timeout"
 		}
+	case "obs":
+		w.obs = len(f) > 1 && f[1] == "on"
 	case "stress":
 		ans = stressStart(r, atoi(1))
 	default:
@@ -762,8 +765,13 @@ func runCase(script []string) *caseResult {
 			}
 		}
 		if seq {
-			r.Line("do "+op, ans)
 			r.Count("seq-ans:" + strings.SplitN(ans, ":", 2)[0])
+			if w.obs {
+				// the observable state after every op (the case is quiescent here)
+				ans += " | " + w.workers(r) + " " + strconv.FormatBool(w.d.IsRunning()) + " " + strconv.FormatBool(w.d.IsStopped())
+				r.Count("seq-state-observations")
+			}
+			r.Line("do "+op, ans)
 		} else {
 			r.Line("op "+op, "-")
 		}
